@@ -169,6 +169,12 @@ func init() {
 		{Name: "B", Ops: []Op{{Kind: "fs-load", Key: k1}, {Kind: "fs-load", Key: k2}, {Kind: "fs-list"}}},
 		{Name: "C", Ops: []Op{{Kind: "fs-save", Key: k2, Msg: v("c1")}, {Kind: "fs-save", Key: k2, Msg: v("c2-longer-value")}, {Kind: "fs-load", Key: k1}}},
 	}))
+	// Save and Delete of one key from different goroutines
+	register("fsconc3", mk([]ActorSpec{
+		{Name: "A", Ops: []Op{{Kind: "fs-save", Key: k1, Msg: v("a1")}, {Kind: "fs-save", Key: k1, Msg: v("a2-longer-value")}}},
+		{Name: "B", Ops: []Op{{Kind: "fs-list"}, {Kind: "fs-load", Key: k1}}},
+		{Name: "C", Ops: []Op{{Kind: "fs-delete", Key: k1}, {Kind: "fs-load", Key: k1}, {Kind: "fs-delete", Key: k1}}},
+	}))
 	// one scenario per key bit: two concurrent savers whose keys differ in that bit only
 	for bit := 0; bit < 17; bit++ {
 		ka := uint(0x0aaaa)
